@@ -63,6 +63,13 @@ type dvSim struct {
 	nLateRib int
 	losePfx  int // number of upcoming prefix-table fetches to lose (answered with a timeout)
 	nLostPfx int
+	// lossy profile: advertisement fetches that are answered by a NACK / a timeout first (budgets)
+	lossRng   *rand.Rand
+	lossArmed bool // failures are injected from the second round of a phase on: the last fetches of a phase are the ones nothing repairs
+	nackAdv   int
+	loseAdv   int
+	nNackAdv  int
+	nLostAdv  int
 }
 
 // face returns the id of the face at a towards b (changes when the link is re-created).
@@ -387,7 +394,41 @@ func (s *dvSim) exchange(a, b int) bool {
 		s.drain()
 		return true
 	}
-	for _, x := range mine {
+	for qi := 0; qi < len(mine); qi++ {
+		x := mine[qi]
+		if s.lossRng != nil && s.lossArmed && x.Callback != nil {
+			res := ndn.InterestResultNone
+			if s.nackAdv > 0 && s.lossRng.Intn(3) == 0 {
+				s.nackAdv--
+				s.nNackAdv++
+				res = ndn.InterestResultNack
+			} else if s.loseAdv > 0 && s.lossRng.Intn(4) == 0 {
+				s.loseAdv--
+				s.nLostAdv++
+				res = ndn.InterestResultTimeout
+			}
+			if res != ndn.InterestResultNone {
+				// the fetch fails (no route yet at the forwarder / lost): the router is expected to
+				// express it again by itself; whatever it expresses next is answered normally
+				s.events = append(s.events, fmt.Sprintf("r%d: fetch of r%d's advertisement fails (%v)", a, b, res))
+				x.Callback(ndn.ExpressCallbackArgs{Result: res, NackReason: spec.NackReasonNoRoute})
+				if !s.quiesce() {
+					return false
+				}
+				s.mu.Lock()
+				var keep []simeng.Expressed
+				for _, y := range s.advFetch[a] {
+					if len(y.Interest.FinalName) > 1 && B.name.IsPrefix(y.Interest.FinalName[1:]) {
+						mine = append(mine, y)
+					} else {
+						keep = append(keep, y)
+					}
+				}
+				s.advFetch[a] = keep
+				s.mu.Unlock()
+				continue
+			}
+		}
 		fin, _, err := spec.Spec{}.ReadInterest(enc.NewWireReader(x.Interest.Wire))
 		if err != nil {
 			s.bad = "advertisement Interest does not decode"
